@@ -25,16 +25,16 @@ type Expect struct {
 	Ctx   string `json:"ctx,omitempty"`
 	Try   bool   `json:"try,omitempty"`
 	// C06
-	Full     bool `json:"full,omitempty"`     // terminal consumes everything
-	HasFail  bool `json:"hasfail,omitempty"`  // some element may fail
+	Full    bool `json:"full,omitempty"`    // terminal consumes everything
+	HasFail bool `json:"hasfail,omitempty"` // some element may fail
 	// C08
-	Drop   bool  `json:"drop,omitempty"`
-	Need   int   `json:"need,omitempty"`   // index of the last source element the consumer needs
-	S      int   `json:"s,omitempty"`      // lazy stages + 1
-	ParSt  int   `json:"parst,omitempty"`  // stages that may go parallel
-	FailAt int   `json:"failat,omitempty"` // source index of the failing element + 1 (0 = none)
-	Fair   bool  `json:"fair,omitempty"`   // uniform costs, no stalls, no PCT
-	Huge   bool  `json:"huge,omitempty"`   // source >= 1e9 elements
+	Drop   bool   `json:"drop,omitempty"`
+	Need   int    `json:"need,omitempty"`   // index of the last source element the consumer needs
+	S      int    `json:"s,omitempty"`      // lazy stages + 1
+	ParSt  int    `json:"parst,omitempty"`  // stages that may go parallel
+	FailAt int    `json:"failat,omitempty"` // source index of the failing element + 1 (0 = none)
+	Fair   bool   `json:"fair,omitempty"`   // uniform costs, no stalls, no PCT
+	Huge   bool   `json:"huge,omitempty"`   // source >= 1e9 elements
 	Term   string `json:"term,omitempty"`
 }
 
@@ -86,6 +86,7 @@ type Obs struct {
 	Stats      RunStats  `json:"stats"`
 	Fired      [8]int    `json:"fired"`
 	Outcome    string    `json:"outcome,omitempty"`
+	OutErr     string    `json:"outerr,omitempty"`
 	Log        []string  `json:"log,omitempty"`
 	Policy     string    `json:"policy,omitempty"`
 }
@@ -186,9 +187,6 @@ func clientOutcome(r *RunOut) Outcome {
 	if len(r.Outcomes) > 1 && len(r.Outcomes[1]) > 0 {
 		return r.Outcomes[1][len(r.Outcomes[1])-1]
 	}
-	if len(r.Outcomes[0]) > 0 {
-		return r.Outcomes[0][len(r.Outcomes[0])-1]
-	}
 	return Outcome{}
 }
 
@@ -226,6 +224,9 @@ func exec(c *Case) *Obs {
 }
 
 func (o *Obs) finishTest(c *Case, r *RunOut) {
+	if oc := clientOutcome(r); oc.Done && !oc.Ok {
+		o.OutErr = trunc(oc.Err, 400)
+	}
 	o.FP = fmt.Sprintf("%016x", r.Res.Fingerprint)
 	if len(o.Verdicts) > 0 || c.Sim.UseDecs {
 		o.Decisions = r.Res.Decisions
@@ -323,7 +324,9 @@ func judgeLeftover(prop, name string, r *RunOut, huge bool, o *Obs) {
 		}
 	case "grace-yields", "grace-time", "grace-decisions", "yield-budget", "decision-budget", "time-budget":
 		for _, l := range res.Leftover {
-			if l.State != "blocked" {
+			// only tasks that were actually busy after the call returned: a task that is
+			// merely alive may have been starved by the busy one for the whole grace period
+			if l.State != "blocked" && l.YieldsAfterRoot >= 1000 {
 				o.add(name, prop+":background:"+l.Role, fmt.Sprintf("%s#%d still %s (%s) %s after the call returned; yields since return=%d, simulated time since return=%v",
 					l.Role, l.Ordinal, l.State, l.Op, res.End, res.Stats.Yields-res.Stats.RootDoneAtY, time.Duration(res.Stats.SimTime-res.Stats.RootDoneAtT)))
 			}
